@@ -81,7 +81,9 @@ def merged_units(tier):
     """documented type + neighbours in one shared file, exported through a root"""
     units = []
     n = 0
-    texts = [["Some words."], ["first", "", "third"], ["first", "", "", "fourth"], ["", "", "", "x"], ["a */ b"], ["export type Zed = 1;"], ["naïve 日本語 ß"], ["x" * 300]]
+    texts = [["Some words."], ["first", "", "third"], ["first", "", "", "fourth"], ["", "", "", "x"], ["a */ b"], ["export type Zed = 1;"],
+             # a doc line that starts (column 0 in a block comment) with the words `export type` and the NAME OF A NEIGHBOUR in the file
+             ["first", "export type Aa@ = 1;"], ["x", "export type Zz@ = { z: 1 };", "export type Mm@ = 2;"], ["naïve 日本語 ß"], ["x" * 300]]
     for lines in texts:
         for syntax in SYNTAX:
             for docpos in ("container", "field"):
@@ -95,7 +97,7 @@ def merged_units(tier):
                          '#[derive(TS)] #[ts(export_to = "shared_@.ts")] pub struct Zz@ { pub z: Option<Box<Mm@>> } '
                          '#[derive(TS)] pub struct Root@ { pub m: Mm@, pub a: Aa@, pub z: Zz@ }') % (doc_c, doc_f)
                 units.append(corpus.Unit(name, items.replace("@", name), [], serde=False,
-                                         meta={"root_ty": "Root" + name, "lines": lines + ([TAIL] if syntax == "mixed" else []), "syntax": syntax, "docpos": docpos}))
+                                         meta={"root_ty": "Root" + name, "lines": [l.replace("@", name) for l in lines] + ([TAIL] if syntax == "mixed" else []), "syntax": syntax, "docpos": docpos}))
     for docpos in ("none",):
         name = "MGbase"
         items = ('#[derive(TS)] #[ts(export_to = "shared_@.ts")] pub struct Mm@ { pub f: i32 } '
@@ -187,7 +189,7 @@ def run(tier):
            "samples": [{"case": m[0], "text": m[2][:300]} for m in meta[:: max(1, len(meta) // 6)][:6]],
            "cases": len(recs), "merged_file_cases": sum(1 for m in meta if m[0]["merged"]),
            "model_says_not_contained": model_uncontained, "by_position": dict(Counter(m[0]["position"] for m in meta)), "exhaustive": tier != "quick",
-           "rule": "doc texts of <= %d lines over 12 line tokens x 4 syntaxes (/// lines, #[doc] attributes, one block, block + line) x 10 positions (quick: all single lines, two-line texts containing an empty line / `*/` / `export type`); + 64 merged-file cases (documented type between two neighbours in a shared file)" % (2 if tier == "quick" else 3)}
+           "rule": "doc texts of <= %d lines over 12 line tokens x 4 syntaxes (/// lines, #[doc] attributes, one block, block + line) x 10 positions (quick: all single lines, two-line texts containing an empty line / `*/` / `export type`); + 80 merged-file cases (documented type between two neighbours in a shared file)" % (2 if tier == "quick" else 3)}
     vlib.write_evidence(PROP, tier, "model_checking", cov,
                         ["doc comments are given to the derive as #[doc = ..] attributes, which is what rustc turns /// and /** */ into",
                          "containment of the text is checked modulo backslashes (an escaped `*/` still counts as the text)"],
